@@ -87,6 +87,7 @@ type Limits struct {
 	MaxSteps     int64
 	BranchTO     time.Duration
 	AssertTO     time.Duration
+	ExactTO      time.Duration
 	MaxPower     int
 	TaskDeadline time.Time
 }
@@ -131,6 +132,7 @@ type Engine struct {
 	traceCalls  bool
 	reachTries  map[string]int
 	exactNext   bool
+	hints       []*smt.Term
 	Probe       bool // probing run: no solver-backed obligations
 	snap        interface{}
 	snapCells   map[*ssa.Global]*value
@@ -194,6 +196,7 @@ func (e *Engine) beginPath() {
 	e.choiceVals = map[string]int{}
 	e.choiceNames = nil
 	e.tags = nil
+	e.hints = nil
 	e.obsKeys = nil
 	e.obsTerms = map[string]*smt.Term{}
 }
@@ -511,39 +514,57 @@ func (e *Engine) replaying() bool { return e.Probe || e.pos < len(e.decs) }
 // exactSolver returns the second, non-abstracting solver (started lazily) loaded with
 // the current path condition plus extra, at a fresh scope.
 func (e *Engine) exactQuery(extra *smt.Term, to time.Duration) smt.Result {
-	if e.SX == nil {
+	// Each exact query runs in a fresh, non-incremental solver process: without
+	// push/pop z3 applies its full preprocessing and nonlinear tactics, which decides
+	// many queries the incremental core leaves unknown.
+	run := func(withHints bool) smt.Result {
+		if e.SX != nil {
+			e.SX.Close()
+			e.SX = nil
+		}
 		sx, err := smt.NewSolver(e.Ctx, e.S.Cmd)
 		if err != nil {
 			return smt.Unknown
 		}
 		e.SX = sx
+		if d := os.Getenv("SYMGO_DUMP"); d != "" {
+			f, _ := os.Create(fmt.Sprintf("%s/%s.%d.exact.smt2", d, e.Harness, time.Now().UnixNano()))
+			e.SX.Log = f
+		}
+		for _, l := range e.pc {
+			for _, c := range l {
+				sx.Assert(c)
+			}
+		}
+		if extra != nil {
+			sx.Assert(extra)
+		}
+		if withHints {
+			for _, h := range e.hints {
+				sx.Assert(h)
+			}
+		}
+		r := sx.Check(to)
+		e.XStats.Queries++
+		e.XStats.Time += sx.Stats.Time
+		switch r {
+		case smt.Sat:
+			e.XStats.Sat++
+		case smt.Unsat:
+			e.XStats.Unsat++
+		default:
+			e.XStats.Unknown++
+		}
+		return r
 	}
-	if e.SX.Dead {
-		if err := e.SX.Restart(); err != nil {
-			return smt.Unknown
+	if len(e.hints) > 0 && extra != nil {
+		// first look for a model inside the regime suggested by the harness (nd.Hint):
+		// hints only ever narrow the search for a concrete counterexample
+		if run(true) == smt.Sat {
+			return smt.Sat
 		}
 	}
-	e.SX.PopTo(0)
-	e.SX.Push()
-	for _, l := range e.pc {
-		for _, c := range l {
-			e.SX.Assert(c)
-		}
-	}
-	if extra != nil {
-		e.SX.Assert(extra)
-	}
-	r := e.SX.Check(to)
-	e.XStats.Queries++
-	switch r {
-	case smt.Sat:
-		e.XStats.Sat++
-	case smt.Unsat:
-		e.XStats.Unsat++
-	default:
-		e.XStats.Unknown++
-	}
-	return r
+	return run(false)
 }
 
 func (e *Engine) Assert2(id string, cond *smt.Term, note string) {
@@ -574,7 +595,15 @@ func (e *Engine) Assert2(id string, cond *smt.Term, note string) {
 		if r != smt.Unsat && e.S.Abstract {
 			// abstract sat/unknown: decide with the exact encoding
 			o.AbstractSat++
-			rx := e.exactQuery(neg, e.Lim.AssertTO)
+			rx := e.exactQuery(neg, e.Lim.ExactTO)
+			debugf("exact confirm %s: abstract=%v exact=%v hints=%d", id, r, rx, len(e.hints))
+			if rx == smt.Unknown && os.Getenv("SYMGO_DEBUG") == "2" {
+				for k, d := range e.decs {
+					if k < e.pos && strings.Contains(d.label, "terra-money/alliance") {
+						debugf("    dec %d alt %d %s", k, d.cur, d.label)
+					}
+				}
+			}
 			switch rx {
 			case smt.Unsat:
 				r = smt.Unsat
@@ -595,10 +624,24 @@ func (e *Engine) Assert2(id string, cond *smt.Term, note string) {
 			if kr != nil {
 				e.KnownHits[kr.What]++
 			}
-			if (kr == nil && len(o.Witnesses) < 3) || (kr != nil && e.KnownWit[kr.What] == nil) {
+			isAbs := modelFrom == e.S && e.S.Abstract
+			nAbs, nExact := 0, 0
+			for _, w := range o.Witnesses {
+				if strings.Contains(w.Note, "abstraction") {
+					nAbs++
+				} else {
+					nExact++
+				}
+			}
+			room := (isAbs && nAbs < 2) || (!isAbs && nExact < 3)
+			if kr != nil {
+				old := e.KnownWit[kr.What]
+				room = old == nil || (!isAbs && strings.Contains(old.Note, "abstraction"))
+			}
+			if room {
 				if w := e.witnessFrom(modelFrom, "violation", id, note); w != nil {
 					w.Tags = append([]string(nil), e.tags...)
-					if modelFrom == e.S && e.S.Abstract {
+					if isAbs {
 						w.Note += " [model of the UF abstraction; exact solver undecided]"
 					}
 					if kr != nil {
@@ -645,6 +688,9 @@ func (e *Engine) Observe(key string, t *smt.Term) {
 	}
 	e.obsTerms[key] = t
 }
+
+// Hint: a simplifying regime used only while searching a concrete model for a counterexample.
+func (e *Engine) Hint(t *smt.Term) { e.hints = append(e.hints, t) }
 
 func (e *Engine) Tag(t string) {
 	for _, x := range e.tags {
